@@ -75,6 +75,14 @@ func WorkerMain() {
 		os.Exit(2)
 	}
 	mode := os.Args[1]
+	if mode == "child" && len(os.Args) >= 3 {
+		if f := childModes[os.Args[2]]; f != nil {
+			f(os.Args[3:])
+			return
+		}
+		fmt.Fprintln(os.Stderr, "unknown child mode", os.Args[2])
+		os.Exit(2)
+	}
 	fs := flag.NewFlagSet(mode, flag.ExitOnError)
 	simName := fs.String("sim", "", "simulator (property id)")
 	class := fs.String("class", "", "run class")
@@ -307,6 +315,13 @@ func execIsolated(simName string, cfg Config, rec []uint32, vclass string, timeo
 	}
 	return got == vclass
 }
+
+var childModes = map[string]func(args []string){}
+
+// RegisterChildMode registers a helper mode of the worker binary
+// ("vworker child <name> ..."), used by simulators that need to observe
+// behaviour across separate OS processes.
+func RegisterChildMode(name string, f func(args []string)) { childModes[name] = f }
 
 const (
 	DeathClass = "process-death"
